@@ -8,11 +8,12 @@ cd "$(dirname "$0")"
 mkdir -p build evidence
 python3 tools/gen_all.py || echo "setup: translator reported an error (the affected check will report it)"
 cd lean
+# one big build first (maximum parallelism); the per-property loop below then only re-checks / finishes
+lake build Babylon $(sed -n 's/^name = "\(drv_C[0-9]*\)"/\1/p' lakefile.toml) > ../build/setup-all.log 2>&1 || echo "setup: full library build reported errors (see build/setup-all.log); building per property"
 FAILED=""
 for p in $(sed -n 's/^name = "drv_\(C[0-9]*\)"/\1/p' lakefile.toml); do
   lake build Babylon.Properties.$p drv_$p > ../build/setup-$p.log 2>&1 || FAILED="$FAILED $p"
 done
-lake build > ../build/setup-all.log 2>&1 || echo "setup: full library build reported errors (see build/setup-all.log)"
 cd ..
 python3 tools/warm.py > build/setup-warm.log 2>&1 || true
 if [ -n "$FAILED" ]; then echo "setup: Lean targets with errors:$FAILED"; else echo "setup: all Lean targets built"; fi
